@@ -19,7 +19,7 @@ Four layers, each tied to the code:
 2. **Exception handlers and reporter threshold** (`Gen/Enum.lean`, `Gen/Dispatch.lean`): every exception class the option
    validators / option extraction can raise is turned into `MarkupError`, which `run_directive` / `explicit_construct`
    turn into a system message; `halt_level` is above every message level.
-3. **Enumerators** (`roman.py`, `Body.parse_enumerator`): table-driven model over the generated table.
+3. **Enumerators** (`roman.py`, `Body.parse_enumerator`): the greedy conversions over the generated numeral map.
 4. **Line loop** (`StateMachine.run_sm`): terminates within `4·lines + 6` iterations under the `Progress` contract, which the
    harness monitors on every real parse.
 
@@ -120,28 +120,78 @@ example : reporterRaises 3 3 = true := by decide   -- a lowered halt_level would
 /-! ## 3. enumerators -/
 open SnootyVerif.Enumerator in
 /-- the tables of the running code -/
-def enumTables : SnootyVerif.Enumerator.Tables := ⟨Gen.romanNumerals, Gen.enumSequences, Gen.converterHandlers⟩
+def romanR : SnootyVerif.Enumerator.Roman := ⟨Gen.romanMap, Gen.romanMax⟩
+def enumTables : SnootyVerif.Enumerator.Tables := ⟨romanR, Gen.enumSequences, Gen.converterHandlers⟩
 
-/-- The roman table has no duplicate entry (the unfixed table held "VII" twice). -/
-theorem roman_table_nodup : Gen.romanNumerals.Nodup := by decide +kernel
+/-- The numeral map is in strictly decreasing order of value, every value is positive and no numeral is empty: both greedy
+loops of roman.py terminate (each iteration subtracts a positive value / consumes at least one character). -/
+theorem roman_map_strictly_decreasing : Enumerator.mapWellFormed Gen.romanMap = true := by decide +kernel
 
-/-- `from_roman(to_roman(n)) == n` for every n the table covers. -/
-theorem roman_roundtrip (n : Nat) (h1 : 1 ≤ n) (h2 : n ≤ Gen.romanNumerals.length) :
-    (Enumerator.toRoman Gen.romanNumerals n).bind (Enumerator.fromRoman Gen.romanNumerals) = .ok n :=
-  Enumerator.roundtrip_of_nodup _ roman_table_nodup n h1 h2
+/-- the part of the map below the thousands round-trips on 0..999 and never writes a numeral starting with the first
+numeral — exhaustive kernel evaluation, in four chunks -/
+theorem roman_below_first_a : Enumerator.bruteOk ['M'] Gen.romanMap.tail 250 0 = true := by decide +kernel
+theorem roman_below_first_b : Enumerator.bruteOk ['M'] Gen.romanMap.tail 250 250 = true := by decide +kernel
+theorem roman_below_first_c : Enumerator.bruteOk ['M'] Gen.romanMap.tail 250 500 = true := by decide +kernel
+theorem roman_below_first_d : Enumerator.bruteOk ['M'] Gen.romanMap.tail 250 750 = true := by decide +kernel
 
-/-- the unfixed table: VIII is written "VII", so 8 reads back as 7 and "VIII" is not a numeral at all -/
-def oldRoman : List (List Char) :=
-  [['I'], ['I','I'], ['I','I','I'], ['I','V'], ['V'], ['V','I'], ['V','I','I'], ['V','I','I'], ['I','X'], ['X']]
+/-- `from_roman(to_roman(n)) == n` for every n that has a numeral: the thousands are peeled off by the closed form of the
+greedy loops (`Proofs/Enumerator.lean: roundtrip_peel`), the rest is `roman_below_first_*`. -/
+theorem roman_roundtrip (n : Nat) (h1 : 1 ≤ n) (h2 : n ≤ 4999) :
+    (Enumerator.toRoman romanR n).bind (Enumerator.fromRoman romanR) = .ok n := by
+  have hmap : Gen.romanMap = (['M'], 1000) :: Gen.romanMap.tail := by decide +kernel
+  have hmax : romanR.max = 5000 := by decide +kernel
+  apply Enumerator.roundtrip_of_aux romanR n (by omega) (by omega)
+  show Enumerator.fromRomanAux Gen.romanMap (Enumerator.toRomanAux Gen.romanMap n) 0 = n
+  rw [hmap]
+  apply Enumerator.roundtrip_peel ['M'] 1000 (by decide) Gen.romanMap.tail
+  intro n' hn'
+  by_cases ha : n' < 250
+  · exact Enumerator.bruteOk_spec _ _ 250 0 roman_below_first_a n' (by omega) (by omega)
+  · by_cases hb : n' < 500
+    · exact Enumerator.bruteOk_spec _ _ 250 250 roman_below_first_b n' (by omega) (by omega)
+    · by_cases hc : n' < 750
+      · exact Enumerator.bruteOk_spec _ _ 250 500 roman_below_first_c n' (by omega) (by omega)
+      · exact Enumerator.bruteOk_spec _ _ 250 750 roman_below_first_d n' (by omega) (by omega)
 
-theorem roman_table_refuted :
-    (Enumerator.toRoman oldRoman 8).bind (Enumerator.fromRoman oldRoman) = .ok 7
-    ∧ Enumerator.fromRoman oldRoman ['V','I','I','I'] = .error .ValueError := by decide +kernel
+/-- outside 1..4999 `to_roman` raises (a ValueError), it never loops or returns an empty numeral -/
+theorem roman_out_of_range : Enumerator.toRoman romanR 0 = .error .ValueError ∧ Enumerator.toRoman romanR 5000 = .error .ValueError := by
+  decide +kernel
 
 /-- both conversions return or raise `ValueError`, nothing else -/
 theorem fromRoman_total (s : List Char) :
-    (∃ n, Enumerator.fromRoman Gen.romanNumerals s = .ok n) ∨ Enumerator.fromRoman Gen.romanNumerals s = .error .ValueError :=
+    (∃ n, Enumerator.fromRoman romanR s = .ok n) ∨ Enumerator.fromRoman romanR s = .error .ValueError :=
   Enumerator.fromRoman_total _ s
+
+/-- an accepted numeral is the canonical spelling of its value (`IIII`, `VX`, `IC` are rejected because they do not spell back) -/
+theorem fromRoman_canonical (s : List Char) (n : Nat) (h : Enumerator.fromRoman romanR s = .ok n) :
+    Enumerator.toRoman romanR n = .ok s :=
+  Enumerator.fromRoman_sound _ s n h
+
+example : Enumerator.toRoman romanR 1994 = .ok ['M','C','M','X','C','I','V'] := by decide +kernel
+example : Enumerator.fromRoman romanR ['X','X','I'] = .ok 21 := by decide +kernel
+example : Enumerator.fromRoman romanR ['M','M','M','M','C','M','X','C','I','X'] = .ok 4999 := by decide +kernel
+example : Enumerator.fromRoman romanR ['I','I','I','I'] = .error .ValueError := by decide +kernel
+example : Enumerator.fromRoman romanR ['V','X'] = .error .ValueError := by decide +kernel
+example : Enumerator.fromRoman romanR ['I','C'] = .error .ValueError := by decide +kernel
+example : Enumerator.fromRoman romanR [] = .error .ValueError := by decide +kernel
+example : Enumerator.fromRoman romanR ['M','M','M','M','M'] = .error .ValueError := by decide +kernel
+
+/-- the lookup tables of the code before the repairs: first with VIII written "VII" (8 reads back as 7, "VIII" is not a
+numeral), then corrected but ending at XX ("XXI" is not a numeral, 21 has none) — while the algorithm handles both -/
+def oldRoman : List (List Char) :=
+  [['I'], ['I','I'], ['I','I','I'], ['I','V'], ['V'], ['V','I'], ['V','I','I'], ['V','I','I'], ['I','X'], ['X']]
+def oldRoman20 : List (List Char) :=
+  [['I'], ['I','I'], ['I','I','I'], ['I','V'], ['V'], ['V','I'], ['V','I','I'], ['V','I','I','I'], ['I','X'], ['X'],
+   ['X','I'], ['X','I','I'], ['X','I','I','I'], ['X','I','V'], ['X','V'], ['X','V','I'], ['X','V','I','I'],
+   ['X','V','I','I','I'], ['X','I','X'], ['X','X']]
+
+theorem roman_table_refuted :
+    (Enumerator.toRomanTable oldRoman 8).bind (Enumerator.fromRomanTable oldRoman) = .ok 7
+    ∧ Enumerator.fromRomanTable oldRoman ['V','I','I','I'] = .error .ValueError
+    ∧ Enumerator.fromRomanTable oldRoman20 ['X','X','I'] = .error .ValueError
+    ∧ Enumerator.toRomanTable oldRoman20 21 = .error .ValueError
+    ∧ Enumerator.fromRoman romanR ['X','X','I'] = .ok 21
+    ∧ Enumerator.fromRoman romanR ['V','I','I','I'] = .ok 8 := by decide +kernel
 
 /-- the `except` around the converter call handles exactly that class by "no ordinal" -/
 theorem enumerator_conversion_handled : Enumerator.onConvertError Gen.converterHandlers .ValueError = .ok none := by
@@ -160,16 +210,18 @@ theorem parseEnumerator_total (text : List Char) (expected : Option String)
     simpa [Gen.enumSequences] using hmem
   rcases this with h | h | h | h | h <;> subst h <;> exact ⟨by simp [Enumerator.seqMatches], by decide⟩
 
-/-- the unfixed handler (`except ValueError: raise ParserError`) on `xxi.` -/
+/-- the unfixed handler (`except ValueError: raise ParserError`) on `iiii.` -/
 theorem parseEnumerator_refuted :
-    Enumerator.parseEnumerator ⟨Gen.romanNumerals, Gen.enumSequences, [(["ValueError"], ["raise:ParserError"])]⟩ ['x','x','i'] none
+    Enumerator.parseEnumerator ⟨romanR, Gen.enumSequences, [(["ValueError"], ["raise:ParserError"])]⟩ ['i','i','i','i'] none
       = .error .ParserError := by decide +kernel
 
-example : Enumerator.parseEnumerator enumTables ['x','x','i'] none = .ok ("lowerroman", none) := by decide +kernel
+example : Enumerator.parseEnumerator enumTables ['x','x','i'] none = .ok ("lowerroman", some 21) := by decide +kernel
+example : Enumerator.parseEnumerator enumTables ['i','i','i','i'] none = .ok ("lowerroman", none) := by decide +kernel
+example : Enumerator.parseEnumerator enumTables ['M','C','M','X','C','I','V'] none = .ok ("upperroman", some 1994) := by decide +kernel
 example : Enumerator.parseEnumerator enumTables ['v','i','i','i'] none = .ok ("lowerroman", some 8) := by decide +kernel
 example : Enumerator.parseEnumerator enumTables ['i'] none = .ok ("lowerroman", some 1) := by decide +kernel
 example : Enumerator.parseEnumerator enumTables ['c'] none = .ok ("loweralpha", some 3) := by decide +kernel
-example : Enumerator.parseEnumerator enumTables ['c'] (some "lowerroman") = .ok ("lowerroman", none) := by decide +kernel
+example : Enumerator.parseEnumerator enumTables ['c'] (some "lowerroman") = .ok ("lowerroman", some 100) := by decide +kernel
 example : Enumerator.parseEnumerator enumTables ['4','2'] (some "upperroman") = .ok ("arabic", some 42) := by decide +kernel
 example : Enumerator.EnumeratorMatch enumTables ['x','x','i'] := Or.inr ⟨"lowerroman", by decide +kernel, by decide +kernel⟩
 
